@@ -309,12 +309,13 @@ def generate(ctx):
 	                                 'u64 values): every boundary 0..N between storage-library calls, N = all calls done but file not closed, '
 	                                 'plus the uninterrupted write')
 	# multi-megabyte payloads (chunk data is written to the file long before close; the metadata is not)
-	# (thorough tier only)
-	for cont, comp in (() if ctx.quick else (('list', None), ('array', None), ('annot_list', 'gzip'))):
+	# quick: one collection, a few boundaries in the per-signature phase; thorough: three, every boundary
+	for cont, comp in ((('list', None),) if ctx.quick else (('list', None), ('array', None), ('annot_list', 'gzip'))):
 		nsig, per = 12, 120000
 		coll = dict(k=11, prefix='ATGAC', dtype='u4', sigs_gen=[rng.randrange(2 ** 30), nsig, per, 4 ** 11],
 		            container=cont, compression=comp, ids=None, meta=None)
 		total = 12 if cont == 'array' else 14 + nsig
-		for n in list(range(0, total + 1)) + [None]:
+		points = [total // 2, total - 3, total - 1, total] if ctx.quick else list(range(0, total + 1)) + [None]
+		for n in points:
 			ctx.count('stream:large-payload')
 			yield 'crash', dict(coll=coll, n=n, short=True)
